@@ -520,7 +520,7 @@ func c14Multi(cx *c14Ctx) {
 // C14.seq: xml "#seq" ordering is numeric
 
 func c14Seq(cx *c14Ctx) {
-	ru := cx.r.Rule("C14.seq", "to_xml (object mode): in the arm for the \"#seq\" key the value is parsed with an integer parser, that integer reaches the function's integer result, and the sibling sort fed from those results uses integer keys and an ascending a<b comparison (numeric, not lexicographic order); the \"#seq\" arm makes the element report it, a child reporting it always selects the #seq sort, and the key and element slices of every ProxySort are appended in lock-step", 8)
+	ru := cx.r.Rule("C14.seq", "to_xml (object mode): in the arm for the \"#seq\" key the value is parsed with an integer parser, that integer reaches the function's integer result, and the sibling sort fed from those results uses integer keys and an ascending a<b comparison (numeric, not lexicographic order); the \"#seq\" arm makes the element report it, a child reporting it always selects the #seq sort, and the key and element slices of every sortx proxy sort are appended in lock-step, and every such sort is the stable one (sortx.ProxyStable, which calls sort.Stable): siblings with equal keys - the elements of an array under one name - keep their order", 10)
 	p := cx.p
 	root := cx.reg["to_xml"]
 	if root == nil {
@@ -589,7 +589,7 @@ func c14Seq(cx *c14Ctx) {
 		seqBlocks := map[*ssa.BasicBlock]bool{}
 		for _, ci := range fw.CallsIn(f) {
 			c, ok := ci.(*ssa.Call)
-			if !ok || !strings.HasSuffix(fw.CalleeName(c), "/internal/sortx.ProxySort") || len(c.Call.Args) != 3 {
+			if !ok || c14ProxySortKind(c) == "" || len(c.Call.Args) != 3 {
 				continue
 			}
 			fromSeq := false
@@ -636,7 +636,7 @@ func c14Seq(cx *c14Ctx) {
 			ru.Check(len(problems) == 0, key, pos, "integer keys, ascending", strings.Join(problems, "; "))
 		}
 		if nSort == 0 {
-			ru.Fail(fn+"|sort", p.Rel(f.Pos()), "no sortx.ProxySort in "+fn+" is keyed by the #seq results of the child elements")
+			ru.Fail(fn+"|sort", p.Rel(f.Pos()), "no sortx proxy sort (ProxySort/ProxyStable) in "+fn+" is keyed by the #seq results of the child elements")
 		}
 		c14SeqExtra(cx, ru, f, seqBlocks, seqArms)
 	}
